@@ -149,8 +149,26 @@ func ruleShufflePerm(c *Ctx) {
 				c.unm(key, lp.Pos(), "start position of j is not a variable")
 				continue
 			}
-			other := map[string]bool{"pivot": true, "end": true}
+			// the other segment's start position: the j-start of the other pair loop
+			other := map[string]bool{}
+			for _, ol := range loops {
+				if oi, _ := ol.Init.(*ast.AssignStmt); oi != nil && len(oi.Rhs) == 2 {
+					if oj, ok := ast.Unparen(oi.Rhs[1]).(*ast.Ident); ok {
+						other[oj.Name] = true
+					}
+				}
+			}
 			delete(other, j0.Name)
+			// variables this loop's header reads (start positions, bound): their definitions are exempt
+			header := map[string]bool{}
+			for _, e := range append(append([]ast.Expr{}, init.Rhs...), lp.Cond) {
+				ast.Inspect(e, func(m ast.Node) bool {
+					if id, ok := m.(*ast.Ident); ok {
+						header[id.Name] = true
+					}
+					return true
+				})
+			}
 			var wrong *ast.Ident
 			// statements of the enclosing block between the previous loop and this one
 			parents := parentMap(fd.Body)
@@ -160,9 +178,8 @@ func ruleShufflePerm(c *Ctx) {
 					if st.Pos() <= prevEnd || st.Pos() >= lp.Pos() {
 						continue
 					}
-					// definitions of the position variables themselves (mirror := ..., end := ..., pivot := ...) are exempt
 					if as, ok := st.(*ast.AssignStmt); ok && len(as.Lhs) == 1 {
-						if id, ok := as.Lhs[0].(*ast.Ident); ok && (id.Name == "mirror" || id.Name == "end" || id.Name == "pivot" || id.Name == "h") {
+						if id, ok := as.Lhs[0].(*ast.Ident); ok && (header[id.Name] || other[id.Name]) {
 							continue
 						}
 					}
@@ -182,19 +199,162 @@ func ruleShufflePerm(c *Ctx) {
 			prevEnd = lp.End()
 		}
 	}
-	// (d) round direction in both inner functions
+	// (d) round direction in both inner functions: the round counter starts at 0 (forward) or rounds-1 (backward),
+	// forward steps r++ and leaves when r == rounds, backward leaves when r == 0 BEFORE r-- (no uint8 wrap);
+	// rounds == 0 returns at once. The direction tests are found by the bool parameter they test, either polarity.
 	for _, name := range []string{"innerShuffleList", "innerPermuteIndex"} {
 		pk2, f2 := c.P.mustFunc("eth2/beacon/common", name)
-		_ = pk2
-		src := nodeString(c.P.Fset, f2.Body)
-		flat := strings.Join(strings.Fields(src), " ")
+		info2 := pk2.TypesInfo
 		key := name + ".rounds"
-		startOK := strings.Contains(flat, "if !dir {") && strings.Contains(flat, "r = rounds - 1")
-		fwdOK := strings.Contains(flat, "r++ if r == rounds { break }")
-		bwdOK := strings.Contains(flat, "if r == 0 { break }") && strings.Contains(flat, "r--")
+		var dirObj, roundsObj types.Object
+		for _, f := range f2.Type.Params.List {
+			for _, nm := range f.Names {
+				if b, ok := info2.TypeOf(f.Type).Underlying().(*types.Basic); ok {
+					switch {
+					case b.Kind() == types.Bool:
+						dirObj = info2.Defs[nm]
+					case b.Kind() == types.Uint8:
+						roundsObj = info2.Defs[nm]
+					}
+				}
+			}
+		}
+		var loop *ast.ForStmt
+		for _, st := range f2.Body.List {
+			if l, ok := st.(*ast.ForStmt); ok && l.Cond == nil && l.Init == nil {
+				loop = l
+			}
+		}
+		if dirObj == nil || roundsObj == nil || loop == nil {
+			c.unm(key, f2.Pos(), "direction handling written in an unrecognised form (bool direction, uint8 rounds, `for { … }`)")
+			continue
+		}
+		// split an if on the direction into (forward statements, backward statements)
+		sides := func(is *ast.IfStmt) (fwd, bwd []ast.Stmt, ok bool) {
+			cnd := ast.Unparen(is.Cond)
+			neg := false
+			if u, isNot := cnd.(*ast.UnaryExpr); isNot && u.Op == token.NOT {
+				neg = true
+				cnd = ast.Unparen(u.X)
+			}
+			id, isId := cnd.(*ast.Ident)
+			if !isId || info2.ObjectOf(id) != dirObj || is.Init != nil {
+				return nil, nil, false
+			}
+			var els []ast.Stmt
+			if eb, ok := is.Else.(*ast.BlockStmt); ok {
+				els = eb.List
+			} else if is.Else != nil {
+				return nil, nil, false
+			}
+			if neg {
+				return els, is.Body.List, true
+			}
+			return is.Body.List, els, true
+		}
+		// the round counter: the uint8 local stepped in the loop
+		var rObj types.Object
+		ast.Inspect(loop.Body, func(n ast.Node) bool {
+			if inc, ok := n.(*ast.IncDecStmt); ok && rObj == nil {
+				if id, ok := ast.Unparen(inc.X).(*ast.Ident); ok {
+					if b, ok := info2.TypeOf(id).Underlying().(*types.Basic); ok && b.Kind() == types.Uint8 {
+						rObj = info2.ObjectOf(id)
+					}
+				}
+			}
+			return true
+		})
+		if rObj == nil {
+			c.unm(key, loop.Pos(), "round counter (a uint8 stepped with ++/--) not found")
+			continue
+		}
+		rA, roundsA := polyAtom(rObj.Name()), polyAtom(roundsObj.Name())
+		assigns := func(list []ast.Stmt, want Poly) bool {
+			for _, st := range list {
+				if as, ok := st.(*ast.AssignStmt); ok && len(as.Lhs) == 1 && len(as.Rhs) == 1 {
+					if id, ok := as.Lhs[0].(*ast.Ident); ok && info2.ObjectOf(id) == rObj {
+						if p, ok := exprPoly(info2, as.Rhs[0], nil, nil, 0); ok && polyEq(p, want) {
+							return true
+						}
+					}
+				}
+			}
+			return false
+		}
+		steps := func(st ast.Stmt, tok token.Token) bool {
+			if inc, ok := st.(*ast.IncDecStmt); ok && inc.Tok == tok {
+				if id, ok := ast.Unparen(inc.X).(*ast.Ident); ok && info2.ObjectOf(id) == rObj {
+					return true
+				}
+			}
+			return false
+		}
+		breaksWhen := func(st ast.Stmt, p Poly) bool {
+			is, ok := st.(*ast.IfStmt)
+			if !ok || len(is.Body.List) != 1 {
+				return false
+			}
+			if br, ok := is.Body.List[0].(*ast.BranchStmt); !ok || br.Tok != token.BREAK {
+				return false
+			}
+			cut, q, op := condCutOf(info2, is.Cond, nil)
+			return cut == canonCut(p, token.EQL) && cutSide(q, op) == "eq"
+		}
+		// start value
+		startOK := false
+		{
+			init0 := false
+			for _, st := range f2.Body.List {
+				if st.Pos() >= loop.Pos() {
+					break
+				}
+				if assigns([]ast.Stmt{st}, polyConst(0)) {
+					init0 = true
+				}
+				if is, ok := st.(*ast.IfStmt); ok {
+					if fwd, bwd, ok := sides(is); ok {
+						back := assigns(bwd, polyAdd(roundsA, polyConst(1), -1))
+						if back && (init0 || assigns(fwd, polyConst(0))) && !assigns(fwd, polyAdd(roundsA, polyConst(1), -1)) {
+							startOK = true
+						}
+					}
+				}
+			}
+		}
+		// step and exit
+		fwdOK, bwdOK, seenDir := false, false, false
+		for _, st := range loop.Body.List {
+			is, ok := st.(*ast.IfStmt)
+			if !ok {
+				continue
+			}
+			fwd, bwd, ok := sides(is)
+			if !ok {
+				continue
+			}
+			seenDir = true
+			for i, s1 := range fwd {
+				if steps(s1, token.INC) {
+					for _, s2 := range fwd[i+1:] {
+						if breaksWhen(s2, polyAdd(rA, roundsA, -1)) {
+							fwdOK = true
+						}
+					}
+				}
+			}
+			for i, s1 := range bwd {
+				if breaksWhen(s1, rA) {
+					for _, s2 := range bwd[i+1:] {
+						if steps(s2, token.DEC) {
+							bwdOK = true
+						}
+					}
+				}
+			}
+		}
 		zeroOK := roundsZeroReturns(f2)
 		switch {
-		case !strings.Contains(flat, "if dir {") && !strings.Contains(flat, "if !dir {"):
+		case !seenDir:
 			c.unm(key, f2.Pos(), "direction handling written in an unrecognised form")
 		case !startOK || !fwdOK || !bwdOK:
 			c.bad(key, f2.Pos(), "round schedule deviates: forward must run r = 0..rounds-1 (r++ until r == rounds), backward r = rounds-1..0 (start at rounds-1 when !dir, stop at r == 0 before r--) [start %v forward %v backward %v]", startOK, fwdOK, bwdOK)
@@ -323,8 +483,27 @@ func roundsZeroReturns(fd *ast.FuncDecl) bool {
 				if be.Op == token.LOR {
 					return disj(be.X) || disj(be.Y)
 				}
-				if be.Op == token.EQL && types.ExprString(be.X) == "rounds" && types.ExprString(be.Y) == "0" {
-					return true
+				if be.Op == token.EQL {
+					// <the uint8 rounds parameter> == 0, either way round
+					isRounds := func(e ast.Expr) bool {
+						id, ok := ast.Unparen(e).(*ast.Ident)
+						if !ok || id.Obj == nil {
+							return false
+						}
+						if f, ok := id.Obj.Decl.(*ast.Field); ok {
+							if t, ok := f.Type.(*ast.Ident); ok && t.Name == "uint8" {
+								return true
+							}
+						}
+						return false
+					}
+					isZero := func(e ast.Expr) bool {
+						l, ok := ast.Unparen(e).(*ast.BasicLit)
+						return ok && l.Value == "0"
+					}
+					if (isRounds(be.X) && isZero(be.Y)) || (isRounds(be.Y) && isZero(be.X)) {
+						return true
+					}
 				}
 			}
 			return false
